@@ -4,7 +4,7 @@ import os
 from framework import ROOT
 import props.e4common as e4
 
-PROPS = ["Nsq.Props.C14"]
+PROPS = ["Nsq.Props.C14", "Nsq.Props.C14Star"]
 
 
 def check_stream(ctx, label, ops_path, impl_path, use_oracle=True, sample=False):
@@ -35,6 +35,9 @@ def check_stream(ctx, label, ops_path, impl_path, use_oracle=True, sample=False)
                     what = ("after %d step(s) the answers differ from the plain registry: op `%s`; nsqlookupd: %s ; "
                             "registry predicts: %s" % (len(hist) - 2, o, first_diff(i, want)[0], first_diff(i, want)[1]))
                     ctx.violation("c14:" + rel_ids(" ; ".join(normalise(h) for h in hist[-4:])), what, "\n".join(hist) + "\n")
+        wc = ctx.corr.setdefault("wildcard", {})
+        for k, v in spec.stats.items():
+            wc[k] = wc.get(k, 0) + v
         if sample:
             for k in (1, len(ops) // 2, len(ops) - 1):
                 ctx.add_sample({"op": ops[k], "impl": impl[k][:300]})
@@ -83,6 +86,8 @@ RACE_WHAT = {
                                        "the topic: a concurrent UNREGISTER of the last other producer deleted the key",
     "register-vs-topic-delete": "REGISTER topic channel overlapping /topic/delete left the producer registered for the "
                                 "topic but not for the channel (no serial order gives that)",
+    "create-channel-vs-topic-delete": "POST /channel/create overlapping POST /topic/delete left the topic without the "
+                                      "channel created with it, or the channel without its topic (no serial order gives that)",
 }
 
 
@@ -111,14 +116,17 @@ def races(ctx, binp, only=None):
 def run(ctx):
     ctx.trusted += e4.TRUSTED
     ctx.assumptions += [
-        "Op.modelled: POST /topic/tombstone?topic=* is outside the model (its effect depends on Go map order)",
+        "Nsq.Props.C14 (deterministic part) carries Op.modelled / t != '*'; Nsq.Props.C14Star removes both: POST "
+        "/topic/tombstone?topic=* and GET /lookup?topic=* are modelled as SETS of allowed results (one per admissible "
+        "outcome `pick` of Go's map iteration); the harness reads the outcome off the real run and model + oracle accept "
+        "or refuse it",
         "handler calls do not overlap in time (sequential histories; the concurrent leg checks quiescent points "
         "of histories whose concurrent operations touch disjoint names). For overlapping calls on the SAME names the "
         "statement is false (Lean: concurrent_*_linearizable_false; known findings race:*)",
     ]
     ctx.rule = ("every history of length L over the full alphabet (2 producers x {IDENTIFY, PING, disconnect, "
                 "REGISTER/UNREGISTER x 2 topics (one #ephemeral) x {no channel, c, d#ephemeral}} + create/delete "
-                "topic/channel + tombstone x 2 nodes + advance time by 1 or 2 units) from an empty registry, all "
+                "topic/channel + tombstone x 2 nodes + tombstone topic=* + the topic=* queries + advance time by 1 or 2 units) from an empty registry, all "
                 "answers (/topics, /channels, /lookup per topic, /nodes, /debug) compared after EVERY step; plus long "
                 "random histories (3 producers, two sharing one node address) and concurrent histories at quiescent "
                 "points. A case = (operation, resulting answers); non-trivial = the operation succeeded")
@@ -217,6 +225,25 @@ def run(ctx):
                 e4.hist_lines(ctx, out, "random")
             broken += check_stream(ctx, "rnd_%d" % s, os.path.join(ctx.work, "rnd_%d.ops" % s),
                                    os.path.join(ctx.work, "rnd_%d.impl" % s), sample=(s == 0))
+        # option edge values: --tombstone-lifetime 0 / negative (tombstones never in force), --inactive-producer-timeout
+        # negative (every nsqd hidden). (inactive = 0 is a threshold: listed only at the very instant of the last PING,
+        # not observable live; tied by the strict `>` fact.) Theorems: C14Star.tombstone_lifetime_nonpositive_disables, …
+        edge = [("tomblife0", {"VERIF_E4_TOMBLIFE_S": 0}), ("tomblife-neg", {"VERIF_E4_TOMBLIFE_S": -7}),
+                ("inactive-neg", {"VERIF_E4_INACTIVE_S": -1})]
+        jobs = []
+        for k, (name, env) in enumerate(edge):
+            e = {"VERIF_N": ctx.budget(4, 20), "VERIF_LEN": 120, "VERIF_SHARD": 100 + k}
+            e.update(env)
+            jobs.append((binp, "TestVerifE4Random", e, 900))
+        res = e4.run_parallel(ctx, jobs, workers=len(edge))
+        for k, (rc, out) in enumerate(res):
+            if rc != 0:
+                ctx.log("option-edge leg %s failed:\n%s" % (edge[k][0], out[-1500:]))
+                broken.append("option-edge harness %s exit %s" % (edge[k][0], rc))
+                continue
+            e4.hist_lines(ctx, out, "option_edge_" + edge[k][0])
+            broken += check_stream(ctx, "edge_" + edge[k][0], os.path.join(ctx.work, "rnd_%d.ops" % (100 + k)),
+                                   os.path.join(ctx.work, "rnd_%d.impl" % (100 + k)))
         # concurrent histories, quiescent points
         rc, out = e4.run_leg(ctx, binp, "TestVerifE4Concurrent", {"VERIF_N": ctx.budget(15, 150), "VERIF_LEN": 40}, 900)
         if rc != 0:
